@@ -263,6 +263,16 @@ def list_dotted_names(fn: Callable) -> Set[str]:
         return set()
 
 
+class _Missing:
+    """What a resolver returns for a symbol that no longer exists (as opposed to one bound to None)"""
+
+    def __repr__(self):
+        return "<missing>"
+
+
+_MISSING = _Missing()
+
+
 class HashRule(ABC):
     """
     Base class for hash rules. Each hash rule computes the hash of a different type of
@@ -439,7 +449,8 @@ class HashRule(ABC):
         first_part = parts[0]
 
         def resolver():
-            return global_table[first_part] if first_part in global_table else None
+            # A name that has disappeared is not the same as a name bound to None
+            return global_table[first_part] if first_part in global_table else _MISSING
 
         ref = resolver()
 
@@ -498,9 +509,9 @@ class HashRule(ABC):
             def resolver(path=tuple(parts[0 : i + 1])):
                 # Always walk from the global table so that re-binding of any part of the
                 # dotted name is noticed
-                obj = global_table[path[0]] if path[0] in global_table else None
+                obj = global_table[path[0]] if path[0] in global_table else _MISSING
                 for attr in path[1:]:
-                    obj = getattr(obj, attr, None)
+                    obj = getattr(obj, attr, _MISSING)
                 return obj
 
             ref = getattr(ref, part_i)
